@@ -33,6 +33,7 @@ func checkC15(c *Ctx) {
 	c.R.Floor("functions operating a cond lock", nfun, 6)
 	w, b, s := monitorRules(c, buf)
 	c.cachedCursorComparisons(buf)
+	c.closedEndsWait(buf)
 	c.R.Count("wait loops", w)
 	c.R.Count("broadcast sites", b)
 	c.R.Count("stores to foreign predicate state", s)
